@@ -28,6 +28,9 @@ from collections import namedtuple as _namedtuple                       # noqa: 
 NT = _namedtuple('NT', ['a', 'b'])
 
 
+import numpy as _np                                                   # noqa: E402
+
+
 class Boom(Exception):
     """injected user-function failure (C13)"""
 
@@ -62,6 +65,31 @@ def _nested_mut(a, i):
     return (a[0], a[1] + 1)
 
 
+class Box:
+    """a user object that is hashable (by identity) AND mutable: a seed like this still needs a copy per key"""
+
+    def __init__(self):
+        self.items = []
+
+    def __repr__(self):
+        return 'Box(%r)' % (self.items,)
+
+    def __eq__(self, other):
+        return isinstance(other, Box) and other.items == self.items
+
+    __hash__ = object.__hash__
+
+
+def _box_mut(a, i):
+    a.items.append(i)
+    return a
+
+
+def _tbox_mut(a, i):
+    a[0].items.append(i)
+    return (a[0], a[1] + 1)
+
+
 def _arr_append(a, i):
     a.append(i)
     return a
@@ -74,6 +102,9 @@ _FUNCS = {
     'mod': lambda k: (lambda i: i % k),
     'div': lambda k: (lambda i: i // k),
     'neg': lambda: (lambda i: -i),
+    'sub': lambda k: (lambda i: i - k),
+    'tonp': lambda: (lambda i: _np.int64(i)),
+    'frompy': lambda: (lambda p: int(p)),
     'id': lambda: (lambda i: i),
     'dt': lambda: (lambda i: _EPOCH + _timedelta(seconds=i)),
     # int -> other
@@ -123,6 +154,8 @@ _FUNCS = {
     'acc_pair': lambda: (lambda a, i: (a[0] + i, a[1] + 1)),
     'acc_arr_mut': lambda: _arr_append,
     'acc_nested_mut': lambda: _nested_mut,
+    'acc_box_mut': lambda: _box_mut,
+    'acc_tbox_mut': lambda: _tbox_mut,
     'acc_digest': lambda: (lambda a, i: (a * 7 + digest(i)) % 1009),
     # terminators (must return the seed's type)
     'term_neg': lambda: (lambda a: -a),
@@ -139,6 +172,17 @@ _FUNCS = {
     'kf': lambda k: (lambda i: float(i % k)),
     'kmix': lambda k: (lambda i: float(i % k) if i % 2 else i % k),
     'kdig': lambda k: (lambda x: digest(x) % k),
+    # numpy scalars: their == / != / > return numpy.bool_, which is not the object True
+    'knp': lambda k: (lambda i: _np.int64(i % k)),
+    'modnp': lambda k: (lambda i: _np.int64(i % k)),
+    'divnp': lambda k: (lambda i: _np.int64(i // k)),
+    'divnpf': lambda k: (lambda i: _np.float64(i // k)),
+    'npgt': lambda k: (lambda i: _np.int64(i) > k),
+    # ints of mixed sign (negative keys / indices)
+    'kcent': lambda k: (lambda i: (i % k) - k // 2),
+    'divcent': lambda k: (lambda i: (i // k) - 2),
+    'divbool': lambda k: (lambda i: (i // k) % 2 == 0),
+    'divnone': lambda k: (lambda i: None if (i // k) % 2 else (i // k)),
     # different keys whose hashes collide: hash(-1) == hash(-2); ints congruent mod 2**61-1 share a hash
     'kneg': lambda k: (lambda i: -1 - (i % k)),
     'kmers': lambda k: (lambda i: (i % k) * (2 ** 61 - 1)),
@@ -156,6 +200,7 @@ _SEEDS = {
     'zero': lambda: 0, 'zerof': lambda: 0.0, 'list': lambda: [], 'list_factory': lambda: list,
     'dict_factory': lambda: dict, 'pair00': lambda: (0, 0), 'neg1': lambda: -1,
     'arr_factory': lambda: (lambda: array('q')), 'one': lambda: 1,
+    'box': lambda: Box(), 'tbox': lambda: (Box(), 0),      # hashable but mutable user objects
     'nested': lambda: ([], 0),          # an immutable container holding a mutable one: needs a DEEP copy per key
 }
 
@@ -260,7 +305,7 @@ _reg('assert_', '*', _same, lambda n, e: rs.ops.assert_(fn(n[1], e), name='a'), 
 _reg('assert_1', '*', _same, lambda n, e: rs.ops.assert_1(fn(n[1], e), name='a1'), ['dual', 'stateful'])
 _reg('progress', '*', _same, lambda n, e: rs.ops.progress('p', n[1], measure_throughput=n[2]), ['dual', 'stateful'])
 # mux only
-_reg('distinct', 'iotf', _same, lambda n, e: rs.ops.distinct(fn(n[1], e) if n[1] else None), ['stateful', 'mux_only'])
+_reg('distinct', 'iotfp', _same, lambda n, e: rs.ops.distinct(fn(n[1], e) if n[1] else None), ['stateful', 'mux_only'])
 _reg('lag', '*', 'x', lambda n, e: rs.data.lag(n[1]), ['stateful', 'mux_only'])
 _reg('pad_start', '*', _same, lambda n, e: rs.data.pad_start(n[1], n[2]), ['stateful', 'mux_only'])
 _reg('pad_end', '*', _same, lambda n, e: rs.data.pad_end(n[1], n[2]), ['stateful', 'mux_only', 'completion'])
@@ -276,12 +321,12 @@ CONTEXTS = ('group_by', 'roll', 'split', 'time_split', 'tee_map')
 FUNC_SIG = {
     'add': ('i', 'i'), 'mul': ('i', 'i'), 'mod': ('i', 'i'), 'div': ('i', 'i'), 'neg': ('i', 'i'), 'id': ('*', None),
     'pair': ('i', 't'), 'pairmod': ('i', 't'), 'rep': ('i', 'l'), 'upto': ('i', 'l'), 'opt': ('i', 'o'),
-    'half': ('i', 'f'), 'tofloat': ('i', 'f'), 'nt': ('i', 'n'), 'ntsum': ('n', 'i'), 'trunc': ('f', 'i'), 'scale10': ('f', 'i'),
+    'half': ('i', 'f'), 'tofloat': ('i', 'f'), 'nt': ('i', 'n'), 'ntsum': ('n', 'i'), 'sub': ('i', 'i'), 'tonp': ('i', 'p'), 'frompy': ('p', 'i'), 'kmix': ('i', 'x'), 'trunc': ('f', 'i'), 'scale10': ('f', 'i'),
     't0': ('t', 'i'), 't1': ('t', 'i'), 'tsum': ('t', 'i'), 'len': ('l', 'i'), 'lsum': ('l', 'i'),
     'isnone': ('o', 'i'), 'digest': ('*', 'i'), 'raise_on': ('*', None),
 }
 SEED_TYPE = {'zero': 'i', 'zerof': 'f', 'list': 'x', 'list_factory': 'x', 'dict_factory': 'x', 'pair00': 't',
-             'neg1': 'i', 'arr_factory': 'x', 'one': 'i', 'nested': 'x'}
+             'neg1': 'i', 'arr_factory': 'x', 'one': 'i', 'nested': 'x', 'box': 'x', 'tbox': 'x'}
 
 
 def out_type(node, t):
@@ -302,11 +347,11 @@ def out_type(node, t):
     return o
 
 
-INT_FUNCS = {'add', 'mul', 'mod', 'div', 'neg', 'pair', 'pairmod', 'rep', 'upto', 'opt', 'half', 'tofloat', 'nt', 'even', 'odd',
+INT_FUNCS = {'sub', 'tonp', 'knp', 'modnp', 'divnp', 'divnpf', 'npgt', 'kcent', 'divcent', 'divbool', 'divnone', 'add', 'mul', 'mod', 'div', 'neg', 'pair', 'pairmod', 'rep', 'upto', 'opt', 'half', 'tofloat', 'nt', 'even', 'odd',
              'modeq', 'modne', 'modtruthy', 'kt', 'ks', 'kbig', 'kf', 'kmix', 'kneg', 'kmers', 'ktneg', 'divt', 'divs', 'divbig', 'divhuge', 'divf', 'divpar'}
 NUM_FUNCS = {'gt', 'lt', 'trunc', 'scale10'}
 ANY_FUNCS = {'id', 'digest', 'dgt', 'true', 'false', 'kdig', 'digpar'}
-TYPED_FUNCS = {'t0': 't', 't1': 't', 'tsum': 't', 'len': 'l', 'lsum': 'l', 'isnone': 'o', 'ntsum': 'n'}
+TYPED_FUNCS = {'frompy': 'p', 't0': 't', 't1': 't', 'tsum': 't', 'len': 'l', 'lsum': 'l', 'isnone': 'o', 'ntsum': 'n'}
 INT_ACCS = {'acc_add', 'acc_addsq', 'acc_max', 'acc_pair'}
 
 
